@@ -164,6 +164,16 @@ def build_model(pid, want_proof=True):
     return info
 
 
+def source_pins(pid):
+    """items of the current /repo/src in this property's scope (tools/pins.py) whose text differs from the recorded reference"""
+    sys.path.insert(0, os.path.join(ROOT, 'tools'))
+    import pins
+    try:
+        return pins.changed(REPO).get(pid, [])
+    except Exception as e:
+        return ['pins could not be computed: %r' % (e,)]
+
+
 def build_driver():
     d = os.path.join(CACHE, 'ocaml')
     os.makedirs(d, exist_ok=True)
